@@ -5,8 +5,12 @@
    password (hash), with Set updating in place or appending and Remove deleting the row.
    The password file is a model value: the YAML document is the list of its entries
    (yaml.v2 Marshal/Unmarshal of []*Account is taken to be the identity on such lists), and
-   the file system is a map from (directory, name) to documents, so that the two different
-   path resolutions of Load and saveFileHandler can be written down as coded.
+   the file system is a map from (directory, name) to documents.  Load resolves the path
+   (absolute, or relative to the configuration directory) and saveFileHandler writes the
+   path Load resolved (repaired in 54a09b0; before, it wrote relative to the working
+   directory).  The working directory is still part of the state, to state that nothing
+   depends on it; what can make a save fail is that the directory holding the password
+   file is unavailable ([s_dir_ok]).
 
    The digests are SECTION VARIABLES: [H] for md5/sha256 (hex of the digest) and [bverify]
    for bcrypt.CompareHashAndPassword.  Nothing is assumed about them except that they are
@@ -68,24 +72,19 @@ Record acfg := {
 Definition load_path (c : acfg) : pwpath :=
   match a_pfdir c with Some d => (d, a_pf c) | None => (a_cfgdir c, a_pf c) end.
 
-(* saveFileHandler: os.Rename(tmp, config.PasswordFile) - a relative name is resolved by the
-   operating system against the working directory of the process *)
-Definition save_path (c : acfg) (cwd : N) : pwpath :=
-  match a_pfdir c with Some d => (d, a_pf c) | None => (cwd, a_pf c) end.
-
 (* ---- CONNECT as seen by the hooks ---- *)
 Record aconnect := {
-  cn_version : N;              (* protocol level *)
-  cn_cid : str;
-  cn_uflag : bool; cn_pflag : bool;
-  cn_user : str; cn_pass : str;
-  cn_authmethod : option str;  (* v5 property 0x15 *)
-  cn_authdata : option str     (* v5 property 0x16 *)
+  ac_version : N;              (* protocol level *)
+  ac_cid : str;
+  ac_uflag : bool; ac_pflag : bool;
+  ac_user : str; ac_pass : str;
+  ac_authmethod : option str;  (* v5 property 0x15 *)
+  ac_authdata : option str     (* v5 property 0x16 *)
 }.
 
 (* the decoder leaves Connect.Username / Password nil when the flag is not set *)
-Definition cn_username (c : aconnect) : str := if cn_uflag c then cn_user c else [].
-Definition cn_password (c : aconnect) : str := if cn_pflag c then cn_pass c else [].
+Definition ac_username (c : aconnect) : str := if ac_uflag c then ac_user c else [].
+Definition ac_password (c : aconnect) : str := if ac_pflag c then ac_pass c else [].
 
 Definition au_v3x (v : N) : bool := (v =? 3) || (v =? 4).
 Definition au_v5 (v : N) : bool := v =? 5.
@@ -129,15 +128,15 @@ Section Auth.
     end.
 
   (* OnBasicAuthWrapper(pre): [v] is client.Version().  When validation fails and the
-     version is neither 3, 4 nor 5, both `if`s are skipped and nil is returned. *)
+     every version that is not 3.x is answered with NotAuthorized (repaired in bb4907e; before,
+     a version other than 3, 4, 5 fell through to `return nil`). *)
   Definition au_wrapper (a : halg) (t : acctab) (pre : aconnect -> authres) (v : N) (c : aconnect) : authres :=
     match pre c with
     | HkErr e => HkErr e
     | HkOk =>
-        if au_validate a t (cn_username c) (cn_password c) then HkOk
+        if au_validate a t (ac_username c) (ac_password c) then HkOk
         else if au_v3x v then HkErr V3_NOT_AUTHORIZED
-        else if au_v5 v then HkErr NOT_AUTHORIZED
-        else HkOk
+        else HkErr NOT_AUTHORIZED
     end.
 
   (* ---- server/client.go: connectHandler ---- *)
@@ -147,14 +146,14 @@ Section Auth.
      Result: AOk = authentication succeeded (or continues, for an enhanced exchange). *)
   Definition connect_handler (allow_zero : bool) (basic : option (N -> aconnect -> authres))
              (enh : option (aconnect -> enhres)) (c : aconnect) : authres :=
-    if negb allow_zero && is_empty (cn_cid c) then HkErr CLIENT_ID_NOT_VALID
+    if negb allow_zero && is_empty (ac_cid c) then HkErr CLIENT_ID_NOT_VALID
     else
-      let v := cn_version c in
+      let v := ac_version c in
       let r1 :=
-        if au_v3x v || (au_v5 v && match cn_authmethod c with None => true | Some _ => false end)
+        if au_v3x v || (au_v5 v && match ac_authmethod c with None => true | Some _ => false end)
         then match basic with Some hk => hk v c | None => HkOk end
         else HkOk in
-      if au_v5 v && match cn_authmethod c with None => false | Some _ => true end
+      if au_v5 v && match ac_authmethod c with None => false | Some _ => true end
       then match enh with
            | None => HkErr UNSPECIFIED_ERROR          (* errors.New("OnEnhancedAuth hook is nil") *)
            | Some hk => match hk c with
@@ -175,7 +174,10 @@ Section Auth.
   (* the broker with exactly this plugin loaded: OnBasicAuth = wrapper(default hook),
      OnEnhancedAuth = nil *)
   Definition broker_connect (allow_zero : bool) (a : halg) (t : acctab) (c : aconnect) : option N :=
-    connack_code (cn_version c)
+    (* connectHandler assigns client.version only after the client-id check: a CONNECT refused
+       there is answered with client.version still 0 (no v3 override of the code) *)
+    let v := if negb allow_zero && is_empty (ac_cid c) then 0 else ac_version c in
+    connack_code v
       (connect_handler allow_zero (Some (au_wrapper a t (fun _ => HkOk))) None c).
 
   (* ---- Load ---- *)
@@ -197,18 +199,20 @@ Section Auth.
     end.
 
   (* ---- the plugin instance and its environment ---- *)
-  Record austate := { s_tab : acctab; s_fs : fsys; s_cwd : N; s_cwd_ok : bool }.
+  Record austate := { s_tab : acctab; s_fs : fsys; s_cwd : N; s_dir_ok : bool }.
 
-  (* saveFileHandler: TempFile("./") fails when the working directory is gone *)
+  (* saveFileHandler: TempFile(filepath.Dir(pwdFile)) and Rename onto pwdFile, the path Load
+     resolved; fails when that directory is unavailable *)
   Definition au_save (c : acfg) (t : acctab) (s : austate) : option fsys :=
-    if s_cwd_ok s then Some (fs_put (save_path c (s_cwd s)) t (s_fs s)) else None.
+    if s_dir_ok s then Some (fs_put (load_path c) t (s_fs s)) else None.
 
   Inductive aop :=
   | OUpdate (u p : str) (g : option str)
   | ODelete (u : str)
   | OGet (u : str)
   | OList (page size : N)
-  | OChdir (d : N) (alive : bool)
+  | OChdir (d : N)                             (* os.Chdir: no operation depends on it *)
+  | OBreak (b : bool)                          (* the directory of the password file goes away (true) / comes back *)
   | OValidate (u p : str)
   | OAuth (pre : authres) (v : N) (c : aconnect)
   | OReload                                    (* a fresh instance Loads; its full listing *)
@@ -224,9 +228,9 @@ Section Auth.
   | XFile (d : option pwfile).
 
   Definition with_tab (s : austate) (t : acctab) : austate :=
-    {| s_tab := t; s_fs := s_fs s; s_cwd := s_cwd s; s_cwd_ok := s_cwd_ok s |}.
+    {| s_tab := t; s_fs := s_fs s; s_cwd := s_cwd s; s_dir_ok := s_dir_ok s |}.
   Definition with_tab_fs (s : austate) (t : acctab) (f : fsys) : austate :=
-    {| s_tab := t; s_fs := f; s_cwd := s_cwd s; s_cwd_ok := s_cwd_ok s |}.
+    {| s_tab := t; s_fs := f; s_cwd := s_cwd s; s_dir_ok := s_dir_ok s |}.
 
   (* Update *)
   Definition au_update (c : acfg) (u p : str) (g : option str) (s : austate) : austate * aout :=
@@ -272,11 +276,14 @@ Section Auth.
     | OGet u => if is_empty u then (s, XInvalid)
                 else (s, match t_get u (s_tab s) with Some h => XAccount h | None => XNotFound end)
     | OList page size => (s, XList (list_page page size (s_tab s)) (N.of_nat (length (s_tab s)) mod 4294967296))
-    | OChdir d alive => ({| s_tab := s_tab s; s_fs := s_fs s; s_cwd := d; s_cwd_ok := alive |}, XOk)
+    | OChdir d => ({| s_tab := s_tab s; s_fs := s_fs s; s_cwd := d; s_dir_ok := s_dir_ok s |}, XOk)
+    | OBreak b => ({| s_tab := s_tab s; s_fs := s_fs s; s_cwd := s_cwd s; s_dir_ok := negb b |}, XOk)
     | OValidate u p => (s, XBool (au_validate (a_alg c) (s_tab s) u p))
     | OAuth pre v cn => (s, XAuth (au_wrapper (a_alg c) (s_tab s) (fun _ => pre) v cn))
-    | OReload => let '(f', r) := au_load c (s_fs s) in (with_tab_fs s (s_tab s) f', XLoaded r)
-    | OFile => (s, XFile (fs_get (load_path c) (s_fs s)))
+    | OReload => if s_dir_ok s
+                 then let '(f', r) := au_load c (s_fs s) in (with_tab_fs s (s_tab s) f', XLoaded r)
+                 else (s, XLoaded None)                       (* OpenFile fails *)
+    | OFile => (s, XFile (if s_dir_ok s then fs_get (load_path c) (s_fs s) else None))
     end.
 
   Fixpoint au_run (c : acfg) (s : austate) (ops : list aop) : austate * list aout :=
@@ -296,30 +303,12 @@ Section Auth.
     let '(f, r) := au_load c (init_fs c init) in
     match r with
     | None => None
-    | Some t => Some {| s_tab := t; s_fs := f; s_cwd := cwd; s_cwd_ok := true |}
+    | Some t => Some {| s_tab := t; s_fs := f; s_cwd := cwd; s_dir_ok := true |}
     end.
 
   Definition au_model_outs (c : acfg) (init : option pwfile) (cwd : N) (ops : list aop) : option (list aout) :=
     match au_start c init cwd with
     | None => None
     | Some s => Some (snd (au_run c s ops))
-    end.
-
-  (* the path a successful step wrote the password file to, if it wrote it *)
-  Definition au_step_saved (c : acfg) (s : austate) (o : aop) : option pwpath :=
-    match o with
-    | OUpdate u p g =>
-        if is_empty u then None
-        else match gen_password (a_alg c) p g with
-             | None => None
-             | Some _ => if s_cwd_ok s then Some (save_path c (s_cwd s)) else None
-             end
-    | ODelete u =>
-        if is_empty u then None
-        else match t_get u (s_tab s) with
-             | None => None
-             | Some _ => if s_cwd_ok s then Some (save_path c (s_cwd s)) else None
-             end
-    | _ => None
     end.
 End Auth.
